@@ -454,7 +454,19 @@ def check_split(run, pkg):
         ss = [e for e in stores(it) if e.data["target"][0] == "sub" and e.data["target"][2] == C(nm)]
         ok = eqv(ss[0].data["value"], ("attr", ("call", ".sum", (("bin", "*", X, ("call", "numpy.conj", (X,), ())),), (("axis", C(1)),)), "real"),
                  ("call", ".sum", (("bin", "**", ("call", "numpy.abs", (X,), ()), C(2)),), (("axis", C(1)),)), same=True) if (len(ss) == 1 and X is not None) else None
-        run.ob("R-ALG", fq, nm, ok, f"{nm} = Re sum_c X_c conj(X_c) of the {'transverse' if nm == 'Sq_T' else 'longitudinal'} part", key_of(ss[0])[:90] if ss else "?", witness=None if ok else f"{nm} is not |X|^2", loc=fi.loc(), sound=True)
+        wit_s = f"{nm} is not |X|^2"
+        if ok is None and len(ss) == 1 and X is not None:
+            # the documented form times / divided by a scalar that is not 1 (a per-polarisation or per-dimension factor)
+            v_ = ss[0].data["value"]
+            forms = (("attr", ("call", ".sum", (("bin", "*", X, ("call", "numpy.conj", (X,), ())),), (("axis", C(1)),)), "real"),
+                     ("call", ".sum", (("bin", "**", ("call", "numpy.abs", (X,), ()), C(2)),), (("axis", C(1)),)))
+            if v_[0] == "bin" and v_[1] in ("/", "*"):
+                core, fac = (v_[2], v_[3]) if eqv(v_[2], *forms, same=True) is True else ((v_[3], v_[2]) if (v_[1] == "*" and eqv(v_[3], *forms, same=True) is True) else (None, None))
+                if core is not None and not (is_const(fac) and fac[1] == 1) and not any(x == X for x in walk(fac)):
+                    ok = False
+                    wit_s = (f"{nm} is |X|^2 {'divided' if v_[1] == '/' else 'multiplied'} by {show(fac)[:30]}: the spectra no longer add up, S != S_L + S_T, whenever that factor differs from 1 "
+                             f"(e.g. ndim - 1 = 2 in three dimensions)")
+        run.ob("R-ALG", fq, nm, ok, f"{nm} = Re sum_c X_c conj(X_c) of the {'transverse' if nm == 'Sq_T' else 'longitudinal'} part", key_of(ss[0])[:90] if ss else "?", witness=None if ok else wit_s, loc=fi.loc(), sound=True)
     if ret is not None and ret[0] == "tuple" and len(ret[1]) == 2:
         full, ave = ret[1]
         okround = full[0] == "call" and full[1] == ".round"
